@@ -1,6 +1,7 @@
 package props
 
 import (
+	"encoding/json"
 	"os"
 	"testing"
 
@@ -32,3 +33,13 @@ func getenv(k, def string) string {
 	}
 	return def
 }
+
+func mustJSON(v any) json.RawMessage {
+	b, err := json.Marshal(v)
+	if err != nil {
+		panic(err)
+	}
+	return b
+}
+
+func jsonUnmarshal(b []byte, v any) error { return json.Unmarshal(b, v) }
